@@ -219,7 +219,9 @@ def case_twin_probes(ctx, d):
     insts = [L.SInst(0x401000, "mov", ["%rax", "%rbx"], None, None, 3), L.SInst(0x401003, "add", ["%rbx", "%rax"], None, None, 3),
              L.SInst(0x401006, "mov", ["%rcx", "%rdx"], None, None, 3), L.SInst(0x401009, "add", ["%rcx", "%rdx"], None, None, 3),
              L.SInst(0x40100c, "mov", ["%rsi", "%rsi"], None, None, 3), L.SInst(0x40100f, "add", ["%rsi", "%rsi"], None, None, 3),
-             L.SInst(0x401012, "push", ["%rdi"], None, None, 1), L.SInst(0x401013, "push", ["%rdi"], None, None, 1), L.SInst(0x401014, "ret", [], None, None, 1)]
+             L.SInst(0x401012, "push", ["%rdi"], None, None, 1), L.SInst(0x401013, "push", ["%rdi"], None, None, 1), L.SInst(0x401014, "ret", [], None, None, 1),
+             L.SInst(0x401015, "(bad)", [], None, None, 1), L.SInst(0x401016, "(bad)", [], None, None, 1), L.SInst(0x401017, "nop", [], None, None, 1),
+             L.SInst(0x401018, "nop", [], None, None, 1), L.SInst(0x401019, "(bad)", [], None, None, 1)]
     prep = dsl.Prepared(d.ws, insts, rng)
     ctx.ran()
     if not prep.verify(d.ws):
@@ -231,10 +233,18 @@ def case_twin_probes(ctx, d):
         d.run_pattern([{"mov": [a, b]}, {"add": [b, a]}], "base", True)
         d.run_pattern([{"mov": [a, b]}, {"add": [a, b]}], "base", True)
         d.run_pattern([{"mov": [a, a]}, {"add": [b, b]}], "base", True)
+    # an element repeated zero times that holds the only occurrence of a name, in front of captures that are used again
+    for dead in ({"push": ["&scratch"], "times": 0}, {"push": ["&scratch"], "times": {"min": 0, "max": 0}}, {"$and": [{"mov": ["&s1", "&s2"]}], "times": 0},
+                 {"mov": [{"$deref": {"main_reg": "&genreg-dead.64"}}], "times": 0}):
+        d.run_pattern([dead, {"mov": ["&first", "&second"]}, {"add": ["&second", "&first"]}], "base", True)
+        d.run_pattern([{"mov": ["&first", "&second"]}, dead, {"add": ["&second", "&first"]}], "base", True)
+        ctx.event("zero_times_probes")
     for a, b in (("&I", "&i"), ("&ins.1", "&ins.2")):
         d.run_pattern([a, {"add": ["%rbx"]}, b, {"add": ["%rcx"]}], "base", True)
         d.run_pattern([a, a], "base", True)
         d.run_pattern([a, b], "base", True)
+        d.run_pattern(["ret", a, a, "nop"], "base", True)          # the two (bad) rows: an instruction capture binds any instruction
+        d.run_pattern([a, a, b, b], "base", True)
         ctx.event("case_twin_probes")
     d.flags = saved
 
